@@ -11,7 +11,8 @@ from gen import tomo, sweep, members
 RULE = ("one Hypothesis search per configuration: stabilizer (constructed member of a drawn LC class: random local "
         "complementations, local Cliffords, generator basis, signs, input format) x state (Clifford+T, rotation circuits with "
         "continuous angles, GHZ-/W-like templates; mixed states of 2..3 components by injection behind an empty preparation "
-        "circuit); plus all stabilizer groups for n = 2, 3 with a drawn state each. The returned measurement circuit is dense-"
+        "circuit); plus all stabilizer groups for n = 2, 3 and one constructed member of every (configuration, LC class) for n = 4..6 "
+        "with a drawn state each, so every table circuit serves as a readout circuit at least once. The returned measurement circuit is dense-"
         "simulated, its exact outcome distribution handed to StabilizerMeasurementFitter via a duck-typed result. A case is one "
         "(stabilizer, state, configuration). Non-trivial = the state is not an eigenstate of the whole group (some |value| < "
         "1 - 1e-3) and the readout circuit maps >= 1 unsigned group element to a negative Z-type operator; distinct by "
@@ -121,6 +122,33 @@ def shard(arg):
     if kind == "hyp":
         _, seed, n_examples, cfg, deadline = arg
         fw.hyp_search(strategy(tuple(cfg)), check_h, rep, seed, n_examples, classify=classify_h, deadline_ts=deadline)
+    elif kind == "classes":
+        # one constructed member of EVERY (configuration, LC class), so that every table circuit is used as a readout once
+        _, n, orbits, k, seed, deadline = arg
+        import math
+        import time as _t
+        for gens, rng, meta in sweep.member_subjects(n, orbits, k, seed, "c12c"):
+            if deadline and _t.time() > deadline:
+                rep.truncated = True
+                break
+            gens = members.apply_signs(gens, rng.randrange(1 << n))
+            ops = []
+            for q in range(n):
+                ops.append(["ry", [q], [rng.uniform(0, 2 * math.pi)]])
+                ops.append(["rz", [q], [rng.uniform(0, 2 * math.pi)]])
+            for q in range(n - 1):
+                ops.append(["cx", [q, q + 1]])
+                ops.append(["ry", [q + 1], [rng.uniform(0, 2 * math.pi)]])
+            for name in sweep.configs(n):
+                case = {"n": n, "connectivity": name, "strings": sweep.strings(gens, n), "format": "strings+sign",
+                        "components": [{"w": [1, 1], "ops": ops}], "zero_seed": rng.randrange(10 ** 6)}
+                fails, info = check_measure(case)
+                nt = (n, name, tuple(case["strings"]), repr(ops)) if (info["neg_image"] and info["non_eigen"]) else None
+                rep.case(nt, None)
+                rep.count("config", f"{n}-{name}")
+                rep.count("state_kind", "pure(one member of every class x configuration)")
+                for key, msg, extra in fails:
+                    rep.fail(key, case, msg, **extra)
     else:
         # every group for n = 2, 3 x every configuration, with a drawn sign vector and a drawn rotation state
         _, n, shard_list, seed = arg
@@ -158,9 +186,13 @@ def run(ctx):
     for n in (2, 3):
         for chunk in sweep.enum_shards(n, 1 if n == 2 else 4):
             args.append(("enum", n, chunk, ctx.seed))
+    for n in (4, 5, 6):
+        for chunk in fw.split(members.orbit_reps(n), {4: 1, 5: 6, 6: 64}[n]):
+            args.append(("classes", n, chunk, 1 if q else 3, ctx.seed, ctx.deadline))
+    args.sort(key=lambda a: 0 if (a[0] == "classes" and a[1] == 6) else 1)
     rep = fw.run_shards(ctx, "props.c12", "shard", args)
     rep.extra["exhaustive"] = False
-    rep.extra["exhaustive_part"] = "every stabilizer group for n=2,3 on every configuration (one drawn sign vector and state each)"
+    rep.extra["exhaustive_part"] = "every stabilizer group for n=2,3 on every configuration and one member of every (configuration, class) for n=4..6 (one drawn sign vector and state each)"
     return rep
 
 
